@@ -2,7 +2,7 @@
 
 All sequences of prompt entries up to a length bound over an alphabet of
 definitions, updates, call/property/invoke sites, a line that fails to compile,
-and lines that raise (with define-before-use respected) are fed
+lines that raise, declarations whose initialiser raises and a failing import (with define-before-use respected) are fed
 line by line to Vm::repl (scripted stdin) and, as the concatenation of the entries
 the model says take effect, to Vm::run.
 Oracle: same stdout (prompts stripped); the session survives bad lines.
@@ -36,9 +36,15 @@ E = {
     "list": ("let l = [1, 2];", "let l = [1, 2];", [], ["l"]),
     "pushl": ("l.push(l.len()); print('l', l, l.iter().map(|v| v * 2).list());", "l.push(l.len()); print('l', l, l.iter().map(|v| v * 2).list());", ["l"], []),
     "interp": ("print('s${x}e');", "print('s${x}e');", ["x"], []),
+    # declarations whose initialiser raises: the line is an error, the name never gets a value, everything else stays usable
+    "faildecl": ("let b = nil.nope();", "try { nil.nope(); } catch e {}", [], ["b"]),
+    "faildecl_g": ("let d = print(nil.nope());", "try { print(nil.nope()); } catch e {}", [], ["d"]),
+    "failimport": ("import std.nope;", "", [], ["nope"]),
+    "impmath": ("import std.math;", "import std.math;", [], ["math"]),
+    "usemath": ("print('abs', math.abs(-2));", "print('abs', math.abs(-2));", ["math"], []),
     "loop": ("for i in 2.times() { print('i', i); }", "for i in 2.times() { print('i', i); }", [], []),
 }
-QUICK = ["defx", "updx", "getx", "callgetx", "clsA", "callfoo", "prop", "usefooA", "usepropA", "bad", "raise", "rtfail", "clsB", "usefooB"]
+QUICK = ["defx", "updx", "getx", "callgetx", "clsA", "callfoo", "prop", "usefooA", "usepropA", "bad", "raise", "rtfail", "clsB", "usefooB", "faildecl", "faildecl_g", "failimport"]
 ALL = list(E.keys())
 
 
@@ -57,7 +63,7 @@ def valid(seq):
 class C19(Check):
     id = "C19"
     level = "exploration"
-    rule = ("all sequences of <= L prompt entries (L=5 quick over a 14 entry alphabet; thorough: L=5 over 23 entries plus L=6 over the 14) that respect "
+    rule = ("all sequences of <= L prompt entries (L=5 quick over a 17 entry alphabet; thorough: L=5 over 28 entries plus L=6 over the 17) that respect "
             "define-before-use; each sequence: Vm::repl with scripted stdin vs Vm::run on the concatenation of the entries that take "
             "effect (lines failing to compile dropped, raising lines wrapped in try); oracle = equal stdout, REPL ends normally. "
             "non-trivial = a sequence in which a later line executes code (call/property/invoke site) compiled on an earlier line")
